@@ -14,7 +14,7 @@
 (***************************************************************************)
 EXTENDS Transform, TTBase
 
-YData(seed, dy, m) == [i \in 1..dy |-> [j \in 1..m |-> ((seed * 3 + i * 7 + j * 5 + i * j) % 7) - 3]]
+YData(seed, dy, m) == [i \in 1..dy |-> [j \in 1..m |-> (((seed + SaltValue) * 3 + i * 7 + j * 5 + i * j) % 7) - 3]]
 
 \* admissible ranks: r_k <= min(r, prod of the mode sizes to the left, prod to the right)
 AdmRanks(dims, r) == [k \in 1..(Len(dims) + 1) |-> Min(r, Min(Prod(SubSeq(dims, 1, k - 1)), Prod(SubSeq(dims, k, Len(dims)))))]
